@@ -661,17 +661,20 @@ class Interp:
         if m == 3:
             i = self._pick(pend, a // 6)
             k = 1 + (a // 48) % len(s.hole_dealing_statuses[i])
-            cards = self._explicit_cards(k, a // 6)
+            down = not any(list(s.hole_dealing_statuses[i])[:k])
+            cards = self._explicit_cards(k, a // 6, down)
             if cards is None:
                 return (None, i)
             return (cards, i)
         # m == 4: explicit single card, default dealee
-        cards = self._explicit_cards(1, a // 6)
+        i = s.hole_dealee_index
+        down = not s.hole_dealing_statuses[i][0]
+        cards = self._explicit_cards(1, a // 6, down)
         if cards is None:
             return ()
         return (cards,)
 
-    def _explicit_cards(self, k, v):
+    def _explicit_cards(self, k, v, down=False):
         s = self.state
         # the "recommended" cards for a deal of k (DESIGN 3-5): reserve piles
         # only once the deck cannot cover the deal
@@ -680,7 +683,9 @@ class Interp:
             return None
         out = []
         for j in range(k):
-            if self.cfg.get('unknown') and (v >> (3 * j)) % 5 == 0:
+            if down and self.cfg.get('unknown') and (v >> (3 * j)) % 5 == 0:
+                # only face-down hole cards may be unknown (what a hand
+                # history leaves out); up cards and boards stay known
                 out.append(Card.UNKNOWN)
                 continue
             c = dealable.pop((v + 7 * j) % len(dealable))
